@@ -5,7 +5,7 @@ CONSTANTS
   Size = 2
   MaxCalls = 1
   MaxExpire = 1
-  Kinds = {"lookup", "dial"}
+  Kinds = {"dial"}
   Faults = TRUE
 VIEW View
 INVARIANTS TypeOK SizeBound ServedFreshAndSequential NoCrossHost RefinesSequential MissReturnsOwnAnswer MutexDiscipline
